@@ -1,6 +1,7 @@
 import Driver.Common
 import W2c2Verif.Model.Instantiate
 import W2c2Verif.Model.InitMem
+import W2c2Verif.Model.NewChild
 
 /-!
   `I inst key=value …` — post-instantiation state (before the start function) of a module description as
@@ -149,35 +150,69 @@ def initmemCmd (rest : List String) : Option String := do
     | none => "none"
   some s!"text {" ".intercalate ((render mode d).map showTok)} | blob {hexBytes src.blob} | arrays {dash arrays} | emitted {em}"
 
+/-- the module description, resolver, embedder world and data segment mode of an `I inst` / `I child` request -/
+def instReq (rest : List String) : Option (ModDesc × Resolver × World × W2c2Verif.Model.InitMem.Mode) := do
+  let mi ← (kv rest "mi").toNat?
+  let ti ← (kv rest "ti").toNat?
+  let gi ← (kv rest "gi").toNat?
+  let mems ← parsePairs (kv rest "mems")
+  let tables ← parsePairs (kv rest "tables")
+  let globals ← (listOf (kv rest "globals") ",").mapM fun t => match t.splitOn ":" with
+    | [a, b] => parseCE a b | _ => none
+  let datas ← parseDatas (kv rest "datas")
+  let mode ← parseMode (kv rest "mode")
+  let elems ← (listOf (kv rest "elems") ";").mapM fun t => match t.splitOn ":" with
+    | [tb, a, b, fs] => do
+      some ({ table := (← tb.toNat?), offset := (← parseCE a b), funcs := (← (listOf fs ",").mapM String.toNat?) } : ElemSegD)
+    | _ => none
+  let hmems ← (listOf (kv rest "hmems") ",").mapM String.toNat?
+  let htables ← (listOf (kv rest "htables") ",").mapM String.toNat?
+  let hglobals ← (listOf (kv rest "hglobals") ",").mapM parseHex
+  let rmem ← parsePtrs (kv rest "rmem")
+  let rtable ← parsePtrs (kv rest "rtable")
+  let rglobal ← parsePtrs (kv rest "rglobal")
+  let d : ModDesc := { memImports := mi, tableImports := ti, globalImports := gi, mems, memShared := parseShared (kv rest "shared"),
+                       tables, globals, datas, elems, hasStart := kv rest "start" = "1" }
+  let hm ← applyFill (hmems.map fun p => Array.replicate (p * pageSize) 0) (kv rest "hfill")
+  let w : World := { mems := hm, tables := htables.map fun n => Array.replicate n none, globals := hglobals }
+  let res : Resolver := { mem := fun k => (rmem[k]?).join, table := fun k => (rtable[k]?).join, global := fun k => (rglobal[k]?).join }
+  some (d, res, w, mode)
+
+/-- `I child <keys of I inst> [pset=<defined global index>:<hex>,…] [pmem=<offset>:<hexbytes>;…]` — the parent is instantiated
+    (`initAllE`), then its defined globals `pset` are overwritten and `pmem` is written into its memory 0 (what calls did to it), then
+    `Model.Inst.newChild` (start function = identity) makes a child.  Answer: `val <state of the child, as I inst> | parent
+    <struct unchanged?> pglobals=<parent's defined globals afterwards> pmems=<parent's own memory objects> | shared <0|1 per defined
+    memory: the child's pointer = the parent's>` -/
+def childCmd (rest : List String) : Option String := do
+  let (d, res, w, mode) ← instReq rest
+  let pset ← (listOf (kv rest "pset") ",").mapM fun t => match t.splitOn ":" with
+    | [k, v] => do some ((← k.toNat?), (← parseHex v)) | _ => none
+  let pmem ← (listOf (kv rest "pmem") ";").mapM fun t => match t.splitOn ":" with
+    | [o, b] => do some ((← o.toNat?), (← parseBytesI b)) | _ => none
+  match W2c2Verif.Model.InitMem.initAllE mode d res w with
+  | .val s =>
+    let self : Instance := { s.2 with globals := pset.foldl (fun g kv => g.set kv.1 kv.2) s.2.globals }
+    let w1 : World := match memPtr d self 0 with
+      | some p => { s.1 with mems := pmem.foldl (fun ms ob => match ms[p]? with | some a => ms.set p (writeArr a ob.1 ob.2) | none => ms) s.1.mems }
+      | none => s.1
+    match newChild d res .val w1 self with
+    | .val x =>
+      let shared := ",".intercalate ((List.range d.mems.length).map fun k => if x.child.mems[k]? == x.self.mems[k]? then "1" else "0")
+      some s!"val {showSt (x.w, x.child)} | parent {x.self == self} pglobals={dash (",".intercalate (x.self.globals.map toHex))} pmems={dash (showNats x.self.mems)} | shared {dash shared}"
+    | .ub k => some s!"ub {k.name}"
+    | .trap t => some s!"trap {t.code}"
+    | .oof => some "oof"
+  | .ub k => some s!"parent-ub {k.name}"
+  | .trap t => some s!"parent-trap {t.code}"
+  | .oof => some "parent-oof"
+
 def instCmd (ws : List String) : Option String :=
   match ws with
   | "I" :: "initmem" :: rest => some ((initmemCmd rest).getD "err parse")
+  | "I" :: "child" :: rest => some ((childCmd rest).getD "err parse")
   | "I" :: "inst" :: rest =>
     let r : Option String := do
-      let mi ← (kv rest "mi").toNat?
-      let ti ← (kv rest "ti").toNat?
-      let gi ← (kv rest "gi").toNat?
-      let mems ← parsePairs (kv rest "mems")
-      let tables ← parsePairs (kv rest "tables")
-      let globals ← (listOf (kv rest "globals") ",").mapM fun t => match t.splitOn ":" with
-        | [a, b] => parseCE a b | _ => none
-      let datas ← parseDatas (kv rest "datas")
-      let mode ← parseMode (kv rest "mode")
-      let elems ← (listOf (kv rest "elems") ";").mapM fun t => match t.splitOn ":" with
-        | [tb, a, b, fs] => do
-          some ({ table := (← tb.toNat?), offset := (← parseCE a b), funcs := (← (listOf fs ",").mapM String.toNat?) } : ElemSegD)
-        | _ => none
-      let hmems ← (listOf (kv rest "hmems") ",").mapM String.toNat?
-      let htables ← (listOf (kv rest "htables") ",").mapM String.toNat?
-      let hglobals ← (listOf (kv rest "hglobals") ",").mapM parseHex
-      let rmem ← parsePtrs (kv rest "rmem")
-      let rtable ← parsePtrs (kv rest "rtable")
-      let rglobal ← parsePtrs (kv rest "rglobal")
-      let d : ModDesc := { memImports := mi, tableImports := ti, globalImports := gi, mems, memShared := parseShared (kv rest "shared"),
-                           tables, globals, datas, elems, hasStart := kv rest "start" = "1" }
-      let hm ← applyFill (hmems.map fun p => Array.replicate (p * pageSize) 0) (kv rest "hfill")
-      let w : World := { mems := hm, tables := htables.map fun n => Array.replicate n none, globals := hglobals }
-      let res : Resolver := { mem := fun k => (rmem[k]?).join, table := fun k => (rtable[k]?).join, global := fun k => (rglobal[k]?).join }
+      let (d, res, w, mode) ← instReq rest
       let a := W2c2Verif.Model.InitMem.initAllE mode d res w
       let a0 := initAll d res w
       let b := instantiate d res .val w
